@@ -36,6 +36,73 @@ def ctx_for(atoms, seed, moving=None):
     return c
 
 
+class MirrorGenerator(np.random.Generator):
+    """Records every array it hands out; in mirror mode hands the recorded arrays out again, negated (the draw that
+    proposes the inverse deformation when the bounds are symmetric)."""
+
+    def __init__(self, seed):
+        super().__init__(np.random.PCG64(seed))
+        self.tape = []
+        self.mirror = False
+        self.pos = 0
+
+    def _out(self, value):
+        if self.mirror:
+            v = self.tape[self.pos]
+            self.pos += 1
+            return -v
+        self.tape.append(np.array(value, copy=True))
+        return value
+
+    def uniform(self, *a, **k):
+        return self._out(super().uniform(*a, **k))
+
+    def random(self, *a, **k):   # (a draw on [0, 1) has no mirror image: cases using it are skipped by the caller)
+        self.tape.append(None)
+        return super().random(*a, **k)
+
+
+def inverse_pairs_layer(rep, rs, tier):
+    """A deformation and its inverse: the same operation is called twice, the second time with the first call's draws
+    negated; the two gradients must be inverse to each other whatever the maximum strain (the statement's symmetry clause,
+    draw by draw instead of in the mean), a shape deformation must keep the volume, and every gradient is symmetric
+    positive definite."""
+    from quansino.mc.contexts import DisplacementContext
+    from quansino.operations.cell import AnisotropicDeformation, IsotropicDeformation, ShapeDeformation
+
+    atoms = Atoms("Cu2", positions=[[1, 1, 1], [3, 2, 1]], cell=np.diag([7.0, 8.0, 9.0]), pbc=True)
+    n = 0
+    for mv in (0.003, 0.05, 0.3, 1.0, 2.0, 3.0):
+        for kname, K in (("IsotropicDeformation", IsotropicDeformation), ("AnisotropicDeformation", AnisotropicDeformation), ("ShapeDeformation", ShapeDeformation)):
+            for rep_i in range(4 if tier == "quick" else 40):
+                g = MirrorGenerator(int(rs.randint(1, 2**31)))
+                ctx = DisplacementContext(atoms, g)
+                op = K(mv)
+                try:
+                    F1 = np.asarray(op.calculate(ctx), float)
+                    if any(t is None for t in g.tape) or not g.tape:
+                        continue
+                    g.mirror = True
+                    F2 = np.asarray(op.calculate(ctx), float)
+                except Exception as ex:  # noqa: BLE001
+                    rep.violation(f"raise:inverse-pair:{kname}:{type(ex).__name__}", f"{kname}({mv}).calculate raised {ex!r}", {"max_value": mv})
+                    continue
+                n += 1
+                rep.count(("inverse-pair", kname, mv, rep_i), nontrivial=True)
+                scale = max(1.0, np.abs(F1).max() * np.abs(F2).max())
+                err = np.abs(F1 @ F2 - np.eye(3)).max() / scale
+                if err > 1e-11:
+                    rep.violation(f"inverse-pair:{kname}", f"{kname}(max_value={mv}): the gradient of a draw and the gradient of the negated draw are not inverse to each other: |F(S) F(-S) - 1| = {err:.2e} (relative)", {"max_value": mv, "F": F1.tolist(), "Finv": F2.tolist()})
+                    break
+                if kname == "ShapeDeformation" and abs(np.log(np.linalg.det(F1))) > 1e-10:
+                    rep.violation("shape-not-volume-preserving", f"ShapeDeformation(max_value={mv}): ln det F = {np.log(np.linalg.det(F1)):.2e}", {"max_value": mv, "F": F1.tolist()})
+                    break
+                if np.abs(F1 - F1.T).max() > 1e-12 * max(1.0, np.abs(F1).max()) or not np.all(np.linalg.eigvalsh((F1 + F1.T) / 2) > 0):
+                    rep.violation(f"contract:{kname}:symmetric-positive-definite", f"{kname}(max_value={mv}): the gradient is not symmetric positive definite", {"max_value": mv, "F": F1.tolist()})
+                    break
+    return n
+
+
 def random_cell(rs):
     k = rs.randint(3)
     if k == 0:
@@ -372,6 +439,10 @@ def run(tier: str) -> int:
                 flag(f"asymmetric:{name}:logF", f"{name}: log F[{i}{j}] has a non-zero mean: a deformation and its inverse are not equally likely", zmean(Ls[:, i, j]))
         if name == "ShapeDeformation" and np.abs(np.trace(Ls, axis1=1, axis2=2)).max() > 1e-10:
             rep.violation("shape-not-volume-preserving", "ShapeDeformation: log F is not traceless", {})
+    npairs = inverse_pairs_layer(rep, rs, tier)
+    rep.add(inverse_deformation_pairs=npairs)
+    if npairs == 0:
+        rep.error("inverse-pairs layer exercised nothing (the deformations no longer draw through rng.uniform?)")
     # translation: centroid uniform in fractional coordinates (triclinic cell, 3-atom group)
     cellt = np.array([[8.0, 0, 0], [2.0, 7.0, 0], [1.0, -1.5, 9.0]])
     mol2 = Atoms("HCO", positions=[[1.0, 1.0, 1.0], [2.1, 1.1, 1.0], [2.5, 2.2, 1.4]], cell=cellt, pbc=True)
